@@ -9,6 +9,14 @@ sys.path.insert(0, VERIF)
 from harness.core import CHECKS  # noqa
 
 TABLE = {
+    "C12": dict(
+        category="exploration", design_ref="3/C12",
+        technique="Hypothesis-generated keys, signing and encryption plans; taint-style output scanner (raw / base64url / base64 / hex spellings of every private parameter incl. captured ephemeral keys) with positive controls; must-raise oracle for private exports from public keys",
+        text="Per quick run ~1300 generated keys x 12 public-facing outputs (public JWK, public key set, public PEM/DER via three methods, thumbprint, auto kid, default export of a public key), "
+             "~660 JWS and ~1260 JWE/JWT serializations (686 with a captured ephemeral private key) are scanned for the octets of d, p, q, dp, dq, qi, k and ephemeral d in raw, base64url, base64 and hex "
+             "form and for private member names; ~7000 private-export requests on public-only keys must raise. Every shard first proves that the scanner flags private exports and planted secrets.",
+        note="secrets shorter than 16 octets are not searched; a secret that the caller also supplied as payload/AAD/salt is excluded for that case; ephemeral keys are observed by wrapping generate_key in the harness process",
+    ),
     "C11": dict(
         category="exploration", design_ref="3/C11",
         technique="Hypothesis-generated keys and parameters, export/import round trips judged through an independent strict RFC 7518/8037 JWK parser and `cryptography` number objects, interoperation checks (sign/verify, ECDH), single-mutation generator for malformed JWKs with a must-reject oracle",
